@@ -65,6 +65,10 @@ def obj_digest(o):
     """structural digest of a potential / closure / omega object (public state, no callables)"""
     if o is None:
         return None
+    if isinstance(o, np.ndarray):
+        return arr_sha(o)            # a private copy may hold evaluated tables instead of objects: still just state
+    if not hasattr(o, '__dict__'):
+        return repr(o)[:200]
     d = {'__class__': type(o).__name__}
     for k, v in sorted(vars(o).items()):
         if callable(v):
